@@ -18,9 +18,7 @@ from __future__ import annotations
 
 import ast
 import asyncio
-import itertools
 import re
-import sys
 import types
 
 from hypothesis import strategies as st
